@@ -25,16 +25,18 @@ type c02 struct{}
 type c02Case struct {
 	Hist *eng.History `json:"hist,omitempty"`
 	Kube *kubeCase    `json:"kube,omitempty"`
+	Obj  *objCase     `json:"obj,omitempty"` // round 4: whole objects (keyed lists, custom kind, --force)
 }
 
 type c02Obs struct {
 	Hist *eng.Obs `json:"hist,omitempty"`
 	Kube *kubeObs `json:"kube,omitempty"`
+	Obj  *objObs  `json:"obj,omitempty"`
 }
 
 func (*c02) ID() string { return "C02" }
 func (*c02) CoqImport() string {
-	return "From Helm Require Import Engine.Types Engine.Eff Engine.Ops Engine.Cluster Engine.Seq Run.RunEng Run.RunC02."
+	return "From Helm Require Import Engine.Types Engine.Eff Engine.Ops Engine.Cluster Engine.Seq Engine.Obj2 Engine.Update2 Run.RunEng Run.RunC02Obj Run.RunC02."
 }
 
 func (*c02) Rule() string {
@@ -138,6 +140,7 @@ func (*c02) Corpus() []any {
 		hist(op(i1), op(u2), op(u3), op(c02Op("uninstall", 0, eng.Flags{})))
 	}
 	out = append(out, kubeCorpus()...)
+	out = append(out, objCorpus()...)
 	return out
 }
 
@@ -148,7 +151,12 @@ func (*c02) Exhaustive(tier string) []any {
 	return kubeExhaustive()
 }
 
-func (*c02) Generate(r *rand.Rand, _ int) any {
+func (*c02) Generate(r *rand.Rand, i int) any {
+	// every third case is a rich-object case (round 4; quick_n went from 300 to 450 so that the number of
+	// flat cases and histories per run stayed what it was)
+	if i%3 == 2 {
+		return c02Case{Obj: genObjCase(rand.New(rand.NewSource(r.Int63())))}
+	}
 	if r.Intn(10) < 4 {
 		return c02Case{Kube: genKubeCase(r)}
 	}
@@ -197,6 +205,10 @@ func c02Fault(r *rand.Rand, op *eng.Op, prevKeys []string) {
 
 func (*c02) Execute(ci any) any {
 	c := ci.(c02Case)
+	if c.Obj != nil {
+		o := objExecute(c.Obj)
+		return c02Obs{Obj: &o}
+	}
 	if c.Kube != nil {
 		o := kubeExecute(c.Kube)
 		return c02Obs{Kube: &o}
@@ -207,6 +219,9 @@ func (*c02) Execute(ci any) any {
 
 func (*c02) CoqCase(ci, oi any) string {
 	c, o := ci.(c02Case), oi.(c02Obs)
+	if c.Obj != nil {
+		return "CObj (" + objCoq(c.Obj, o.Obj) + ")"
+	}
 	if c.Kube != nil {
 		return "CKube (" + kubeCoq(c.Kube, o.Kube) + ")"
 	}
@@ -223,6 +238,9 @@ func (*c02) CoqCase(ci, oi any) string {
 
 func (*c02) Class(ci, oi any) string {
 	c, o := ci.(c02Case), oi.(c02Obs)
+	if c.Obj != nil {
+		return objClass(c.Obj, o.Obj)
+	}
 	if c.Kube != nil {
 		res := "err"
 		if o.Kube.Ok {
@@ -247,6 +265,14 @@ func (*c02) Class(ci, oi any) string {
 
 func (*c02) NonTrivial(ci, oi any) bool {
 	c, o := ci.(c02Case), oi.(c02Obs)
+	if c.Obj != nil {
+		for _, so := range o.Obj.Steps {
+			if len(so.Muts) > 0 {
+				return true
+			}
+		}
+		return false
+	}
 	if c.Kube != nil {
 		return len(o.Kube.Muts) > 0
 	}
@@ -267,6 +293,9 @@ func (*c02) NonTrivial(ci, oi any) bool {
 
 func (*c02) Oracle(ci, oi any) []hx.Violation {
 	c, o := ci.(c02Case), oi.(c02Obs)
+	if c.Obj != nil {
+		return objOracle(c.Obj, o.Obj)
+	}
 	if c.Kube != nil {
 		return kubeOracle(c.Kube, o.Kube)
 	}
